@@ -153,3 +153,15 @@ pub fn pipe_of_desc(d: usize) -> Option<usize> {
 pub fn violate(oracle: &str, signature: String, message: String) {
     sim().violate(oracle, signature, message);
 }
+
+/// Harness-level: give other parent threads (and processes) a chance to run, up to n hand-overs.
+pub fn yield_threads(n: usize) {
+    let t = me();
+    for _ in 0..n {
+        if sim().poisoned.is_some() {
+            return;
+        }
+        // a zero-length sleep is a pre-emption point for the scheduler
+        crate::sim::par_enter(t, Call::Other);
+    }
+}
